@@ -1281,8 +1281,12 @@ fn rule_vanished(ctx: &Ctx, out: &mut Vec<Violation>) {
         if inst.push.is_some() || m.unique_topic(&inst.topic).is_none() {
             continue;
         }
-        // any delete that may have taken effect ends the subscription's life for this rule
-        let first_effective_delete = m.sub_deletes.get(&sub).map(|v| v.iter().filter(|c| !matches!(m.calls[*c].out, Some(Outcome::Err(_, _)))).map(|c| m.calls[c].inv_seq).min().unwrap_or(u64::MAX)).unwrap_or(u64::MAX);
+        // A delete that was answered OK, or hangs, ends the subscription's life for this rule. One
+        // that was answered with an error, or whose client went away, has done whatever it was going
+        // to do by the next quiescent barrier; if the subscription is found after that, it exists,
+        // and what is published from then on counts (`floor`).
+        let dels: Vec<&Call> = m.sub_deletes.get(&sub).map(|v| v.iter().map(|c| &m.calls[c]).collect()).unwrap_or_default();
+        let first_effective_delete = dels.iter().filter(|c| !matches!(c.out, Some(Outcome::Err(_, _)) | Some(Outcome::Abandoned(_)))).map(|c| c.inv_seq).min().unwrap_or(u64::MAX);
         let incomplete_pull = m.calls.values().any(|c| matches!(&c.req, Req::Pull { sub: s, .. } | Req::DrainPull { sub: s } if *s == sub) && c.inv_seq < limit && !matches!(c.out, Some(Outcome::Ok(_)) | Some(Outcome::Err(_, _))));
         let incomplete_stream = m.streams.values().any(|st| st.sub == sub && (matches!(&st.end, Some((es, _, e)) if *es < limit && !matches!(e, StreamEnd::Status(_, _) | StreamEnd::Eof)) || !matches!(st.started, Some((_, _, _)))));
         let cancelled_bg = m.calls.values().any(|c| matches!(&c.req, Req::Pull { sub: s, bg_slot: Some(slot), .. } if *s == sub && m.cancel_bg.contains_key(slot)));
@@ -1309,9 +1313,16 @@ fn rule_vanished(ctx: &Ctx, out: &mut Vec<Violation>) {
             if m.barriers.iter().any(|x| x.seq > b.seq && x.seq < st.seq) {
                 continue;
             }
+            let floor = match dels.iter().filter(|d| d.inv_seq < st.seq).map(|d| d.inv_seq).max() {
+                None => 0,
+                Some(last) => match m.barriers.iter().find(|x| x.seq > last && x.quiescent) {
+                    Some(q) if q.seq < st.seq => q.seq,
+                    _ => continue,
+                },
+            };
             let undelivered: Vec<&str> = candidates
                 .iter()
-                .filter(|(_, pc)| pc.ret_seq_or_max() < b.seq)
+                .filter(|(_, pc)| pc.ret_seq_or_max() < b.seq && pc.inv_seq > floor)
                 .filter(|(p, _)| {
                     let id = p.msg_id.as_ref().unwrap();
                     !m.deliveries_by_key.get(&(sub.clone(), id.clone())).map(|l| l.iter().any(|&i| m.deliveries[i].recv_seq < st.seq)).unwrap_or(false)
